@@ -75,6 +75,10 @@ def operations():
         if 'GET' in handler.ROUTE_DECLARATIONS[route] and route not in (
                 '/', ''):
             ops.append((route, 'GET', 'badquery'))
+    # the parameter the policy target is taken from, given twice: the
+    # project whose data is reported is the one the rule must be about
+    ops.append(('/usages', 'GET', 'project-twice-own-first'))
+    ops.append(('/usages', 'GET', 'project-twice-own-last'))
     return ops
 
 
@@ -86,6 +90,10 @@ def url_of(route, method, variant=None):
         url = url.replace(a, b)
     if route == '/traits/{name}':
         url = '/traits/' + T1 if method != 'PUT' else '/traits/CUSTOM_NEW'
+    if variant == 'project-twice-own-first':
+        return '/usages?project_id=proj&project_id=other'
+    if variant == 'project-twice-own-last':
+        return '/usages?project_id=other&project_id=proj'
     if variant == 'badquery':
         return url + ('?project_id=%ff' if route == '/usages' else
                       '?name=%ff')
@@ -159,6 +167,14 @@ def fam_callers(version='1.39'):
             return finish(ctx, 'root:%d' % r.status)
         allowed = allowed_formula(route, method, zbool(admin), zbool(service),
                                   zbool(reader), zbool(same))
+        if variant in ('project-twice-own-first', 'project-twice-own-last'):
+            # the project reported on: find it in the administrator's answer
+            # (a project with usage and one without answer differently);
+            # the reader must be of that project
+            reported_other = not (ref.json or {}).get('usages')
+            allowed = z3.Or(zbool(admin), zbool(service), z3.And(
+                zbool(reader), z3.Not(zbool(same)) if reported_other
+                else zbool(same)))
         if variant == 'badquery' and route == '/usages':
             # an undecodable project_id names no project a reader could be
             # "of"
